@@ -137,8 +137,17 @@ func init() {
 			}
 		}
 		acc, err := upd.Verify(pk)
+		// a verdict is a function of the message and the key: the same object asked again (a retry,
+		// or the verification inside Witness.Update after an explicit one) must answer the same
+		acc2, err2 := upd.Verify(pk)
+		if (err == nil) != (err2 == nil) {
+			return fmt.Sprintf("unstable-%v-then-%v", err == nil, err2 == nil)
+		}
 		if err != nil {
 			return "reject"
+		}
+		if acc2.Index != acc.Index {
+			return "unstable-index"
 		}
 		return fmt.Sprintf("accept %d", acc.Index)
 	}
